@@ -15,6 +15,7 @@ class Walk(object):
         self.seen = set()
         self.adj = set()           # (container type, child type) adjacencies
         self.nodes = 0
+        self.twins = []            # (text of a text node holding a repeated-run probe Zt<n>y, path tuple of nodeNames)
 
     def problem(self, kind, msg):
         if len(self.problems) < 20:
@@ -34,6 +35,8 @@ class Walk(object):
         nt = node.nodeType
         if nt == TEXT:
             ms = MARK_RE.findall(str(node))
+            if 'Zt' in node:
+                self.twins.append((str(node), tuple(_nm(p) for p in path)))
             if ms:
                 self.check_chain(node, path)
             for m in ms:
